@@ -42,13 +42,13 @@ TRUSTED_BASE = [
 ]
 MANIFEST = {
     "technique": "Lean 4 proof (hand scanners that consume characters + induction that arithmetic offsets equal consumed lengths; totality of the error-context search) + differential correspondence match by match + direct slicing oracle on generated programs and malformed sources",
-    "text": "token_span_correct / scan_tiles: for every expression string and every base offset each token's start index, computed by arithmetic as in tokenize(), is where the token's text sits in the source; same for the liquid-tag line scanner (liquid_tag_offsets) and, at piece level, for tag names / expressions / output statements of the template lexer under any delimiters (template_span_correct). error_context_total: for every text and 0 <= i < len the search returns the line containing i with the right column, and splitlines pieces concatenate to the text; detailed_message_total: a token with an index inside its source always formats. The full 'every error has a position' sentence is refuted (eof_no_position_counterexample) and listed as a known finding.",
+    "text": "token_span_correct / scan_tiles: for every expression string and every base offset each token's start index, computed by arithmetic as in tokenize(), is where the token's text sits in the source; same for the liquid-tag line scanner (liquid_tag_offsets) and, at piece level, for tag names / expressions / output statements of the template lexer under any delimiters (template_span_correct). error_context_total: for every text and 0 <= i < len the search returns the line containing i with the right column, and splitlines pieces concatenate to the text; detailed_message_total: a token with an index inside its source always formats. negative_index_formats_bare: a token with index -1 (the old shared EOF sentinel) formats without position - fixed in the tree, stream errors now finds every parse error located.",
     "note": "Trusted: Lean kernel, the hand scanners (validated match by match against `re`), emitter for the rule tables, harness. Parser and analysis code that carries start_index from tokens to Spans is covered by the direct oracle only. Character classes exact below U+0100.",
 }
 ASSUMPTIONS = [
     "generated text stays below U+0100 (plus U+2028/U+2029 for line boundaries); the model classifies higher code points as 'other'",
     "spans of variables whose root is written in brackets (['a'], [x]) point at the opening bracket; the oracle accepts the bracket form of the reported root",
-    "errors raised on the shared EOF sentinel token (index -1) have no position: known finding position|eof-token",
+    "errors raised at the end of a token stream used to carry index -1 (finding position|eof-token, fixed in the tree); the oracle still names that signature should it come back",
 ]
 
 ALPH = list("abxyn_019 \t\n.,:|()[]'\"-<>=!?#$&%{}/\\") + ["\xe9", "\xb2", "\xa0", "\x85", "\r", "\x0c"]
